@@ -21,20 +21,27 @@ Go's type checker rules out — `genCtors` has no cells (`#[]`), so `genCtors` d
 composition goes through `new_congr`: `New` calls a constructor only on the data of a column of the map, with the
 constructor `createColumn` selects for the kind of that data.
 
-* `gen_new_end_to_end_partial` — for every column map whose columns are well-typed Go values (`Typed`: `WF` of C08Construct —
-  a Go cell type, a slice of `count` cells or one constant, `count < 2^32` —, every cell of the declared type, and every
-  string column within the documented limits of `qfstrings.Pointer`: each string < 2^28 bytes, all strings of a column
-  together < 2^35 bytes), every column order without duplicates and every list of enum declarations:
-  `New` as regenerated = `newS`, and every cell of the frame reads back through the regenerated typed views
+* `gen_new_end_to_end_partial` — for every column map whose columns are well-typed Go values (`GoData`: `WF` of C08Construct —
+  a Go cell type, a slice of `count` cells or one constant, `count < 2^32` — and every cell of the declared type), where
+  every string column that has NO declaration in `Enums` is within the documented limits of `qfstrings.Pointer`
+  (`TypedFor`: each string < 2^28 bytes, all strings of the column together < 2^35 bytes; string data that is declared an
+  enum is not packed into pointers and may have any size), every column order without duplicates and every list of enum
+  declarations: `New` as regenerated = `newS`, and every cell of the frame reads back through the regenerated typed views
   (`C09ViewsGen.genItemAt` / `genLen` / `genSlice`) over the ascending index.
+* `new_congr_for` — the composition step behind it: with an order without repetitions `New` calls, on a string column with a
+  declaration, the enum constructor only (`loop_congr`: a declaration is deleted only by the column of its own name, so it
+  is still there when the column's turn comes; `run_enums`: what `createColumn` does to the declarations).
 
 Hypotheses that remain (`_partial`), stated precisely:
-1. `(specOrder cols order).Nodup` — a column order naming a column twice is outside the property's quantifier
-   (`C08Construct.dup_order_witness`: the second occurrence of a declared enum column is built as a string column).
-2. `count < 2^32` (`WF.small`): the index is made with `uint32(len)`.
-3. the pointer limits, for EVERY string column — also one that is declared an enum, where `scolumn.New` is not called
-   (hypothesis stronger than needed there) —: beyond them `NewPointer` packs offset and length into overlapping bits
-   (`C08PointerGen`).
+1. `(specOrder cols order).Nodup` — a column order naming a column twice is outside the property's quantifier. The
+   hypothesis is NECESSARY: `nodup_necessary` (the second occurrence of a declared enum column is built as a string
+   column; with every other hypothesis met the conclusion is false).
+2. `count < 2^32` (`WF.small`): the index is made with `uint32(len)` — `rows_2_32_outside`.
+3. the pointer limits, for the string columns WITHOUT enum declaration (the ones `scolumn.New` / `scolumn.NewConst` is
+   called on): beyond them `NewPointer` packs offset and length into overlapping bits (`C08PointerGen`).
+   `enum_beyond_limits`: a declared enum column with a string of 2^28 bytes meets the hypotheses.
+The complementary reading — `New` returns an error exactly for the inputs C08's text says it rejects — is
+`C08NewIff.gen_new_rejects` / `gen_new_iff` (QF/Props/C08NewIff.lean).
 -/
 namespace QF.Props.C08EndToEnd
 open QF QF.Props.C08Construct QF.Props.C08CtorsGen QF.Props.C08Guards
@@ -194,6 +201,29 @@ structure Typed (c : NewCol) : Prop where
     | .const .string => ∀ s, Cell.str (some s) ∈ c.cells → s.length < 2 ^ 28
     | _ => True
 
+/-- A column of the map handed to `New` that is a well-typed Go value — `WF` (a Go cell type; a slice with `count` cells
+or one constant; `count < 2^32`) and every cell of the declared type — with strings of ANY length. This is what Go's type
+checker guarantees of a `[]int` / `[]float64` / `[]bool` / `[]string` / `[]*string` / `Const…` value (a `NewCol` can also
+hold, say, a string cell under the kind `[]int`, which no Go value does); only `count < 2^32` restricts the inputs. -/
+structure GoData (c : NewCol) : Prop where
+  wf : WF c
+  cells : match c.kind with
+    | .cells ty => ∀ x ∈ c.cells, cellType x = ty
+    | .const ty => ∀ x ∈ c.cells, cellType x = ty
+    | .unsupported => True
+
+/-- the documented limits of `qfstrings.Pointer` for the data of a string column: each string shorter than 2^28 bytes, all
+strings of a slice together shorter than 2^35 bytes -/
+def PtrLimits (c : NewCol) : Prop :=
+  match c.kind with
+  | .cells .string => Within (strsOf c.cells)
+  | .const .string => ∀ s, Cell.str (some s) ∈ c.cells → s.length < 2 ^ 28
+  | _ => True
+
+theorem Typed.data {c : NewCol} (h : Typed c) : GoData c := ⟨h.wf, h.cells⟩
+
+theorem Typed.ptrLimits {c : NewCol} (h : Typed c) : PtrLimits c := h.limits
+
 /-- two families of constructors do the same on the data of the column `c`, each with the constructor of the kind -/
 def Agree (K K' : Ctors) (c : NewCol) : Prop :=
   match c.kind with
@@ -351,6 +381,254 @@ theorem new_congr (K K' : Ctors) (plain : Bytes → Bool) (cols : List NewCol) (
   unfold genNew constructIn
   rw [gen_construct_canon.1, hc]
 
+/-! ## … and, of a string column that is declared an enum, only through the enum constructor -/
+
+/-- the declarations `createColumn` returns are the ones it got, or those without the column's own -/
+theorem run_enums (K : Ctors) (c : NewCol) : ∀ (t : CK) (σ : CSt) (col : LCol) (e : List (Bytes × List Bytes)),
+    t.run K c σ = .ok col e → e = σ.enums ∨ e = σ.enums.filter (fun x => !(x.1 == c.name)) := by
+  intro t
+  induction t with
+  | strsToPtrs k ih => intro σ col e h; simp only [CK.run] at h; exact ih σ col e h
+  | lookupEnum hit miss ih1 ih2 =>
+    intro σ col e h
+    simp only [CK.run] at h
+    split at h
+    · exact (by have := ih1 _ col e h; exact this)
+    · exact (by have := ih2 _ col e h; exact this)
+  | consume k ih =>
+    intro σ col e h
+    simp only [CK.run] at h
+    rcases ih _ col e h with h' | h'
+    · exact .inr h'
+    · refine .inr ?_
+      rw [h', List.filter_filter]
+      simp
+  | make ctor k ih =>
+    intro σ col e h
+    simp only [CK.run] at h
+    split at h
+    · exact (by have := ih _ col e h; exact this)
+    · exact (by have := ih _ col e h; exact this)
+    · cases h
+  | makeEnum ctor onErr k ih1 ih2 =>
+    intro σ col e h
+    simp only [CK.run] at h
+    split at h
+    · cases h
+    · split at h
+      · cases h
+      · exact (by have := ih1 _ col e h; exact this)
+      · exact (by have := ih2 _ col e h; exact this)
+  | ifCountNeg t e' ih1 ih2 =>
+    intro σ col e h
+    simp only [CK.run] at h
+    split at h
+    · split at h
+      · exact (by have := ih1 _ col e h; exact this)
+      · exact (by have := ih2 _ col e h; exact this)
+    · cases h
+  | retCol =>
+    intro σ col e h
+    simp only [CK.run] at h
+    split at h
+    · cases h; exact .inl rfl
+    · cases h
+  | retErr => intro σ col e h; cases h
+  | «opaque» txt => intro σ col e h; cases h
+
+
+/-! ## The pointer limits only where `scolumn.New` / `scolumn.NewConst` is called -/
+
+/-- a string column (slice or constant) for which `enums` holds a declaration: `createColumn` builds it with
+`ecolumn.New` / `ecolumn.NewConst`, `scolumn.New` is not called -/
+def declaredEnum (enums : List (Bytes × List Bytes)) (c : NewCol) : Bool :=
+  (match c.kind with | .cells .string => true | .const .string => true | _ => false) &&
+    (enums.find? (·.1 == c.name)).isSome
+
+/-- the two enum constructors do the same on the data of the column `c` -/
+def AgreeEnum (K K' : Ctors) (c : NewCol) : Prop :=
+  match c.kind with
+  | .cells _ => ∀ d, K.enumCells d c.cells = K'.enumCells d c.cells
+  | .const _ => ∀ v rest, c.cells = v :: rest → ∀ d, K.enumConst d v c.count.toNat = K'.enumConst d v c.count.toNat
+  | .unsupported => True
+
+/-- what `New` needs of two families of constructors on the column `c` when the declarations are `enums`: for a string
+column with a declaration only the enum constructors, else `Agree` -/
+def AgreeFor (K K' : Ctors) (enums : List (Bytes × List Bytes)) (c : NewCol) : Prop :=
+  (declaredEnum enums c = false → Agree K K' c) ∧ (declaredEnum enums c = true → AgreeEnum K K' c)
+
+/-- a string column whose declaration is still there: `createColumn` calls the enum constructor only -/
+theorem create_congr_decl (K K' : Ctors) (plain : Bool) (c : NewCol) (E : List (Bytes × List Bytes))
+    (hk : c.kind = .cells .string ∨ c.kind = .const .string) (p : Bytes × List Bytes)
+    (hf : E.find? (·.1 == c.name) = some p) (h : AgreeEnum K K' c) :
+    runCreate K canonCreate plain c E = runCreate K' canonCreate plain c E := by
+  unfold AgreeEnum at h
+  rcases hk with hk | hk
+  · rw [hk] at h
+    simp only at h
+    cases plain
+    · rw [runCreate_eq K false c E .ptrs _ (by rw [hk]; rfl) (by rfl), runCreate_eq K' false c E .ptrs _ (by rw [hk]; rfl) (by rfl)]
+      simp only [enumOr, CK.run, hk, hf, h]
+    · rw [runCreate_eq K true c E .strs _ (by rw [hk]; rfl) (by rfl), runCreate_eq K' true c E .strs _ (by rw [hk]; rfl) (by rfl)]
+      simp only [enumOr, CK.run, hk, hf, h]
+  · rw [hk] at h
+    simp only at h
+    rw [runCreate_eq K plain c E .constStr _ (by rw [hk]; rfl) (by rfl), runCreate_eq K' plain c E .constStr _ (by rw [hk]; rfl) (by rfl)]
+    cases hc : c.cells with
+    | nil => simp only [enumOr, CK.run, hk, hc, hf]
+    | cons v rest =>
+      have h2 := h v rest hc
+      simp only [enumOr, CK.run, hk, hc, hf, h2]
+
+theorem create_congr_for (K K' : Ctors) (plain : Bool) (c : NewCol) (enums : List (Bytes × List Bytes))
+    (h : AgreeFor K K' enums c) (E : List (Bytes × List Bytes))
+    (hfind : E.find? (·.1 == c.name) = enums.find? (·.1 == c.name)) :
+    runCreate K canonCreate plain c E = runCreate K' canonCreate plain c E := by
+  cases hd : declaredEnum enums c with
+  | false => exact create_congr K K' plain c (h.1 hd) E
+  | true =>
+    have hA := h.2 hd
+    unfold declaredEnum at hd
+    rw [Bool.and_eq_true] at hd
+    obtain ⟨hd1, hd2⟩ := hd
+    have hk : c.kind = .cells .string ∨ c.kind = .const .string := by
+      cases hk : c.kind with
+      | unsupported => rw [hk] at hd1; cases hd1
+      | cells ty => cases ty <;> simp [hk] at hd1 ⊢
+      | const ty => cases ty <;> simp [hk] at hd1 ⊢
+    obtain ⟨p, hp⟩ := Option.isSome_iff_exists.1 hd2
+    exact create_congr_decl K K' plain c E hk p (hfind.trans hp) hA
+
+theorem find_filter_ne (E : List (Bytes × List Bytes)) (n m : Bytes) (h : m ≠ n) :
+    (E.filter (fun x => !(x.1 == n))).find? (·.1 == m) = E.find? (·.1 == m) := by
+  induction E with
+  | nil => rfl
+  | cons x xs ih =>
+    by_cases hx : x.1 = n
+    · have hm : (x.1 == m) = false := beq_false_of_ne (by rw [hx]; exact fun e => h e.symm)
+      simp only [List.filter_cons, hx, beq_self_eq_true, Bool.not_true, Bool.false_eq_true, if_false, ih,
+        List.find?_cons]
+      rw [← hx, hm]
+    · have hb : (x.1 == n) = false := beq_false_of_ne hx
+      simp only [List.filter_cons, hb, Bool.not_false, if_true, List.find?_cons, ih]
+
+/-- what `createColumn` leaves of the declarations: all of them, or all but the column's -/
+theorem createIn_out (K : Ctors) (plain : Bytes → Bool) (cols : List NewCol) (n : Bytes) (E : List (Bytes × List Bytes))
+    (col : LCol) (e : List (Bytes × List Bytes)) (h : createIn K canonCreate plain cols n E = .ok col e) :
+    e = E ∨ e = E.filter (fun x => !(x.1 == n)) := by
+  have key : ∀ (pl : Bool) (c : NewCol), c.name = n → runCreate K canonCreate pl c E = .ok col e →
+      e = E ∨ e = E.filter (fun x => !(x.1 == n)) := by
+    intro pl c hn hr
+    unfold runCreate at hr
+    split at hr
+    · cases hr
+    · split at hr
+      · cases hr
+      · have := run_enums K c _ _ col e hr
+        rw [hn] at this
+        exact this
+  unfold createIn at h
+  split at h
+  · next c hc => exact key _ c (find_name hc).1 h
+  · exact key _ _ rfl h
+
+/-- **The loop of `New` depends on `createColumn` only at the names of the order, each with its own declaration still
+there** (an order without repetitions: a declaration is deleted only by the column of its name). -/
+theorem loop_congr (cr cr' : Bytes → List (Bytes × List Bytes) → COut) (enums : List (Bytes × List Bytes))
+    (hout : ∀ n E col e, cr' n E = .ok col e → e = E ∨ e = E.filter (fun x => !(x.1 == n)))
+    (heq : ∀ n E, E.find? (·.1 == n) = enums.find? (·.1 == n) → cr n E = cr' n E) :
+    ∀ (ns : List Bytes) (i : Nat) (σ : LSt), ns.Nodup →
+      (∀ n ∈ ns, σ.enums.find? (·.1 == n) = enums.find? (·.1 == n)) →
+      runLoop cr canonBody i ns σ = runLoop cr' canonBody i ns σ := by
+  intro ns
+  induction ns with
+  | nil => intro i σ _ _; rfl
+  | cons n ns ih =>
+    intro i σ hnd hinv
+    have hl : ∀ (f : Bytes → List (Bytes × List Bytes) → COut), runLoop f canonBody i (n :: ns) σ =
+        match runBody f i n canonBody { σ with created := none } with
+        | .next σ' => runLoop f canonBody (i + 1) ns σ'
+        | r => r := fun _ => rfl
+    rw [hl cr, hl cr', body_run, body_run, heq n σ.enums (hinv n (by simp))]
+    cases hc : cr' n σ.enums with
+    | err => rfl
+    | stuck => rfl
+    | ok c e =>
+      simp only
+      by_cases h1 : σ.cols.length = i
+      · simp only [h1, if_true]
+        by_cases h2 : ((if i = 0 then (c.cells.size : Int) else σ.first) != (c.cells.size : Int)) = true
+        · simp only [h2, if_true]
+        · simp only [h2]
+          apply ih _ _ (List.nodup_cons.1 hnd).2
+          intro m hm
+          have hmn : m ≠ n := fun e => (List.nodup_cons.1 hnd).1 (e ▸ hm)
+          have hm' := hinv m (List.mem_cons_of_mem _ hm)
+          rcases hout n σ.enums c e hc with rfl | rfl
+          · exact hm'
+          · show (σ.enums.filter _).find? _ = _
+            rw [find_filter_ne _ _ _ hmn]; exact hm'
+      · simp only [h1, if_false]
+
+/-- **`New` depends on the constructors only through what `createColumn` calls on the data of the map's columns**: for a
+string column with a declaration the enum constructor, else the constructors of its kind (`AgreeFor`). For an order without
+repetitions. -/
+theorem new_congr_for (K K' : Ctors) (plain : Bytes → Bool) (cols : List NewCol)
+    (order : List Bytes) (enums : List (Bytes × List Bytes)) (hnd : (specOrder cols order).Nodup)
+    (h : ∀ c ∈ cols, AgreeFor K K' enums c) :
+    genNew K plain cols order enums = genNew K' plain cols order enums := by
+  have heq : ∀ n E, E.find? (·.1 == n) = enums.find? (·.1 == n) →
+      createIn K canonCreate plain cols n E = createIn K' canonCreate plain cols n E := by
+    intro n E hE
+    unfold createIn
+    cases hf : cols.find? (·.name == n) with
+    | some c =>
+      obtain ⟨hn, hm⟩ := find_name hf
+      exact create_congr_for K K' _ c enums (h c hm) E (by rw [hn]; exact hE)
+    | none => exact create_congr K K' false _ (by unfold Agree; trivial) E
+  have hloop := loop_congr (createIn K canonCreate plain cols) (createIn K' canonCreate plain cols) enums
+    (createIn_out K' plain cols) heq (specOrder cols order) 0 { enums := enums } hnd (fun _ _ => rfl)
+  unfold genNew constructIn
+  rw [gen_construct_canon.1, gen_construct_canon.2.1]
+  simp only [canonTail, runTail, hloop]
+
+/-- **What `gen_new_end_to_end_partial` asks of a column of the map, given the enum declarations**: a well-typed Go value
+(`GoData`), and the limits of the packed string pointer ONLY IF `createColumn` hands the data to `scolumn.New` /
+`scolumn.NewConst` — a string column WITHOUT a declaration in `Enums`. String data that is declared an enum is never
+packed into pointers (`ecolumn.New` stores one byte per row and the distinct values as Go strings): any length. -/
+structure TypedFor (enums : List (Bytes × List Bytes)) (c : NewCol) : Prop where
+  data : GoData c
+  limits : declaredEnum enums c = false → PtrLimits c
+
+/-- the stronger hypothesis of the earlier version of the theorem -/
+theorem Typed.for {c : NewCol} (h : Typed c) (enums : List (Bytes × List Bytes)) : TypedFor enums c :=
+  ⟨h.data, fun _ => h.limits⟩
+
+theorem typedFor_agree (enums : List (Bytes × List Bytes)) (c : NewCol) (h : TypedFor enums c) :
+    AgreeFor genCtors specCtors enums c := by
+  refine ⟨fun hd => typed_agree c ⟨h.data.wf, h.data.cells, h.limits hd⟩, fun hd => ?_⟩
+  have hcells := h.data.cells
+  unfold declaredEnum at hd
+  rw [Bool.and_eq_true] at hd
+  have hd1 := hd.1
+  unfold AgreeEnum
+  cases hk : c.kind with
+  | unsupported => trivial
+  | cells ty =>
+    rw [hk] at hcells hd1
+    simp only at hcells
+    have hs : ty = .string := by cases ty <;> simp at hd1 ⊢
+    subst hs
+    intro d
+    exact enumCells_agree d c.cells hcells
+  | const ty =>
+    rw [hk] at hcells hd1
+    simp only at hcells
+    have hs : ty = .string := by cases ty <;> simp at hd1 ⊢
+    subst hs
+    intro v rest hv d
+    exact enumConst_agree d v _ (hcells v (by rw [hv]; simp))
+
 /-! ## The frame `newS` builds is well-typed -/
 
 /-- the column as stored -/
@@ -399,9 +677,9 @@ theorem wt_enum {decl : List Bytes} {src : List Cell} {vals : List Bytes} {stric
       have hi := ((C17Enum.mkEnum_rank_lt_255 decl src vals strict h).2.1 s i hr).1
       simp [wtCell, cellVal, hr, enumNull, hi]
 
-theorem specCol_ok (enums : List (Bytes × List Bytes)) (used : List Bytes) (c : NewCol) (ht : Typed c)
+theorem specCol_ok (enums : List (Bytes × List Bytes)) (used : List Bytes) (c : NewCol) (ht : GoData c)
     (col : LCol) (used' : List Bytes) (h : specCol enums used c = some (col, used')) : ColProp c.count col := by
-  obtain ⟨hwf, hcells, _⟩ := ht
+  obtain ⟨hwf, hcells⟩ := ht
   have hkind := hwf.kind
   unfold specCol at h
   -- the cell list and its type
@@ -463,7 +741,7 @@ theorem specCol_ok (enums : List (Bytes × List Bytes)) (used : List Bytes) (c :
       exact List.mem_append_right _ hx
 
 theorem build_ok (enums : List (Bytes × List Bytes)) (len : Int) : ∀ (ordered : List NewCol) (used : List Bytes)
-    (lcols : List LCol) (u : List Bytes), (∀ c ∈ ordered, Typed c) →
+    (lcols : List LCol) (u : List Bytes), (∀ c ∈ ordered, GoData c) →
     newS.build enums len used ordered = some (lcols, u) → ∀ col ∈ lcols, ColProp len col := by
   intro ordered
   induction ordered with
@@ -505,12 +783,12 @@ theorem build_ok (enums : List (Bytes × List Bytes)) (len : Int) : ∀ (ordered
 
 /-- the frame `newS` builds of typed columns: every column of one of the five column types, with `n` cells of its type
 (an enum cell null or a member of the value table with rank < 255) -/
-theorem newS_ok (cols : List NewCol) (order : List Bytes) (enums : List (Bytes × List Bytes)) (ht : ∀ c ∈ cols, Typed c)
+theorem newS_ok (cols : List NewCol) (order : List Bytes) (enums : List (Bytes × List Bytes)) (ht : ∀ c ∈ cols, GoData c)
     (f : LFrame) (h : newS cols order enums = .ok f) : ∀ col ∈ f.cols, ColProp f.n col := by
   by_cases hp : newPrefixRejects cols order
   · rw [C08Guards.newS_prefix cols order enums hp] at h; cases h
   · rw [newS_after_prefix cols order enums hp] at h
-    have hsub : ∀ c ∈ (specOrder cols order).filterMap (fun n => cols.find? (·.name == n)), Typed c := by
+    have hsub : ∀ c ∈ (specOrder cols order).filterMap (fun n => cols.find? (·.name == n)), GoData c := by
       intro c hc
       obtain ⟨n, _, hn⟩ := List.mem_filterMap.mp hc
       exact ht c (List.mem_of_find?_eq_some hn)
@@ -551,29 +829,38 @@ theorem colOK_of_prop (n : Nat) (col : LCol) (h : ColProp n col) : C09ViewsGen.C
 /-! ## `New`, end to end -/
 
 /-- **`New` of today's source with the constructors of today's source builds `newS`, and every cell reads back.**
-For every map of columns that are well-typed Go values within the limits of the packed string pointer (`Typed`), every
-requested column order (empty: the default, sorted by name) without duplicates, every list of enum declarations and either
-way of passing string slices (`plain`: `[]string` / `[]*string`): `New` as regenerated — the guard prefix
-(`C08Guards`), `createColumn` and the loop and tail of `New` (`C08Construct`), the column constructors of icolumn / fcolumn
-/ bcolumn / scolumn (`C08CtorsGen`, `NewPointer` of `C08PointerGen` included) and the enum factory (`C17Factory`) — returns
-exactly `newS cols order enums`: `Err` where the spec rejects, else the spec's frame; and in that frame, stored with the
-ascending index `0 … n-1` `New` gives it, every column read through the regenerated typed views (`C09ViewsGen`:
-`View(ix).Len()`, `.Slice()`, `.ItemAt(i)`) shows `n` rows and exactly the spec's cells, which are the cells that were
-passed in (`newS`: `cells := cl.toArray`).
-EXCLUDED (`_partial`; see the head of this file): a column order with a repeated name; 2^32 rows or more; string data
-beyond the documented limits of `qfstrings.Pointer` (a string of 2^28 bytes or more, 2^35 bytes or more in one column). -/
+For every map of columns that are well-typed Go values (`GoData`), with the string columns that have NO enum declaration
+within the limits of the packed string pointer (`TypedFor`), every requested column order (empty: the default, sorted by
+name) without duplicates, every list of enum declarations and either way of passing string slices (`plain`: `[]string` /
+`[]*string`): `New` as regenerated — the guard prefix (`C08Guards`), `createColumn` and the loop and tail of `New`
+(`C08Construct`), the column constructors of icolumn / fcolumn / bcolumn / scolumn (`C08CtorsGen`, `NewPointer` of
+`C08PointerGen` included) and the enum factory (`C17Factory`) — returns exactly `newS cols order enums`: `Err` where the spec
+rejects, else the spec's frame; and in that frame, stored with the ascending index `0 … n-1` `New` gives it, every column
+read through the regenerated typed views (`C09ViewsGen`: `View(ix).Len()`, `.Slice()`, `.ItemAt(i)`) shows `n` rows and
+exactly the spec's cells, which are the cells that were passed in (`newS`: `cells := cl.toArray`).
+
+FULL STATEMENT (what C08 says of `New`): the same conclusion for EVERY column map, order and declaration list.
+EXCLUDED here (`_partial`), exactly:
+1. a column order that names a column twice (`hnd`); NECESSARY — `nodup_necessary` below: for `ColumnOrder("e","e")`
+   over `{e, a}` with `Enums{e: …}` the conclusion is false (code `[enum, string]`, spec `[enum, enum]`);
+2. a column with 2^32 rows or more (`GoData.wf.small`): the index is made with `uint32(len)` (`rows_2_32_outside`);
+3. a string column WITHOUT enum declaration holding a string of 2^28 bytes or more, or 2^35 bytes or more in all
+   (`TypedFor.limits`): `NewPointer` packs offset and length into overlapping bits (`C08PointerGen`). String data that is
+   declared an enum is NOT restricted (`enum_beyond_limits`).
+The remaining content of `GoData` (a Go cell type, a slice of `count` cells or one constant, cells of the declared type) is
+no restriction of the Go inputs: it says which `NewCol` values stand for Go values. -/
 theorem gen_new_end_to_end_partial (plain : Bytes → Bool) (cols : List NewCol) (order : List Bytes)
-    (enums : List (Bytes × List Bytes)) (ht : ∀ c ∈ cols, Typed c) (hnd : (specOrder cols order).Nodup) :
+    (enums : List (Bytes × List Bytes)) (ht : ∀ c ∈ cols, TypedFor enums c) (hnd : (specOrder cols order).Nodup) :
     C08Construct.genNew genCtors plain cols order enums = some (newS cols order enums) ∧
     ∀ f, newS cols order enums = .ok f → ∀ col ∈ f.cols,
       C09ViewsGen.genLen (vcolOf col) (List.range f.n) = some f.n ∧
       C09ViewsGen.genSlice (vcolOf col) (List.range f.n) = some col.cells.toList ∧
       ∀ i, C09ViewsGen.genItemAt (vcolOf col) (List.range f.n) i = col.cells[i]? := by
   refine ⟨?_, ?_⟩
-  · rw [new_congr genCtors specCtors plain cols (fun c hc => typed_agree c (ht c hc))]
-    exact gen_new_semantics_partial specCtors specCtors_spec plain cols order enums (fun c hc => (ht c hc).wf) hnd
+  · rw [new_congr_for genCtors specCtors plain cols order enums hnd (fun c hc => typedFor_agree enums c (ht c hc))]
+    exact gen_new_semantics_partial specCtors specCtors_spec plain cols order enums (fun c hc => (ht c hc).data.wf) hnd
   · intro f hf col hc
-    have hprop := newS_ok cols order enums ht f hf col hc
+    have hprop := newS_ok cols order enums (fun c hc => (ht c hc).data) f hf col hc
     have hsize : (vcolOf col).data.size = f.n := by
       show col.cells.size = f.n
       rw [hprop.2.1]; exact Int.toNat_natCast f.n
@@ -594,9 +881,7 @@ def exCols : List NewCol :=
    { name := [101], kind := .cells .string, count := 2, cells := [.str (some [120]), .str none] },
    { name := [115], kind := .cells .string, count := 2, cells := [.str (some []), .str (some [97, 98])] }]
 
-/-- the hypotheses of `gen_new_end_to_end_partial` hold for it, in the order `s, e, i, f` with `e` declared an enum -/
-example : (∀ c ∈ exCols, Typed c) ∧ (specOrder exCols [[115], [101], [105], [102]]).Nodup ∧ (specOrder exCols []).Nodup := by
-  refine ⟨?_, by decide, by decide⟩
+theorem exCols_typed : ∀ c ∈ exCols, Typed c := by
   intro c hc
   simp only [exCols, List.mem_cons, List.not_mem_nil, or_false] at hc
   rcases hc with rfl | rfl | rfl | rfl
@@ -611,6 +896,11 @@ example : (∀ c ∈ exCols, Typed c) ∧ (specOrder exCols [[115], [101], [105]
     simp [strsOf] at hs
     rcases hs with rfl | rfl <;> decide
 
+/-- the hypotheses of `gen_new_end_to_end_partial` hold for it, in the order `s, e, i, f` with `e` declared an enum -/
+example : (∀ c ∈ exCols, TypedFor [([101], [[121], [120]])] c) ∧ (specOrder exCols [[115], [101], [105], [102]]).Nodup ∧
+    (specOrder exCols []).Nodup :=
+  ⟨fun c hc => (exCols_typed c hc).for _, by decide, by decide⟩
+
 /-- … and the spec is not trivial on it -/
 example : (match newS exCols [[115], [101], [105], [102]] [([101], [[121], [120]])] with
     | .ok f => some (f.names, f.cols.map (·.ty), f.cols.map (·.vals), f.rows)
@@ -619,6 +909,92 @@ example : (match newS exCols [[115], [101], [105], [102]] [([101], [[121], [120]
       [[.str (some []), .str (some [120]), .int 1, .float 0], [.str (some [97, 98]), .str none, .int 2, .float 0]]) := by
   rfl
 
+/-- a string of 2^28 bytes -/
+def bigStr : Bytes := List.replicate (2 ^ 28) 97
+
+theorem bigStr_length : bigStr.length = 2 ^ 28 := List.length_replicate
+
+/-- `{"e": []*string{<a string of 2^28 bytes>}}`: beyond the limit of the string pointer -/
+def bigCol : NewCol := { name := [101], kind := .cells .string, count := 1, cells := [.str (some bigStr)] }
+
+/-- **String data declared an enum is not restricted**: with `Enums{"e": …}` the column meets the hypothesis of
+`gen_new_end_to_end_partial` (`TypedFor`), although it is outside the pointer's limits (`Typed`, the hypothesis of the
+earlier version, fails; so does `TypedFor` without the declaration). -/
+theorem enum_beyond_limits : TypedFor [([101], [])] bigCol ∧ ¬ Typed bigCol ∧ ¬ TypedFor [] bigCol := by
+  have hd : GoData bigCol := by
+    refine ⟨⟨by decide, ⟨Or.inr (Or.inr (Or.inr rfl)), rfl⟩⟩, ?_⟩
+    intro x hx
+    have hx' : x = .str (some bigStr) := by simpa only [bigCol, List.mem_cons, List.not_mem_nil, or_false] using hx
+    subst hx'; rfl
+  have hno : ¬ PtrLimits bigCol := by
+    intro h
+    have h2 : bigStr.length < 2 ^ 28 := h.2 bigStr (List.mem_cons_self ..)
+    rw [bigStr_length] at h2
+    exact Nat.lt_irrefl _ h2
+  have e1 : declaredEnum [([101], [])] bigCol = true := rfl
+  have e2 : declaredEnum [] bigCol = false := rfl
+  exact ⟨⟨hd, fun h => by rw [e1] at h; cases h⟩, fun h => hno h.limits, fun h => hno (h.limits e2)⟩
+
+/-! ### The hypothesis on the order is necessary -/
+
+private def nE : Bytes := [101]
+private def nA : Bytes := [97]
+/-- `{"e": []*string{"a"}, "a": []int{1}}` -/
+def dupCols : List NewCol :=
+  [{ name := nE, kind := .cells .string, count := 1, cells := [.str (some nA)] },
+   { name := nA, kind := .cells .int, count := 1, cells := [.int 1] }]
+
+def typesOf : Option Res → List CType
+  | some (.ok f) => f.cols.map (·.ty)
+  | _ => []
+
+theorem dupCols_typed : ∀ c ∈ dupCols, Typed c := by
+  intro c hc
+  simp only [dupCols, List.mem_cons, List.not_mem_nil, or_false] at hc
+  rcases hc with rfl | rfl
+  · refine ⟨⟨by decide, ⟨Or.inr (Or.inr (Or.inr rfl)), rfl⟩⟩, by decide, ⟨by decide, ?_⟩⟩
+    intro s hs
+    simp [strsOf] at hs
+    subst hs; decide
+  · exact ⟨⟨by decide, ⟨Or.inl rfl, rfl⟩⟩, by decide, trivial⟩
+
+/-- **The `Nodup` hypothesis cannot be dropped**: `New({e, a}, ColumnOrder("e", "e"), Enums{"e": {}})` meets every other
+hypothesis (even the stronger `Typed`), the guard prefix lets it pass (right length, only known names), and the conclusion
+is FALSE: the regenerated `New` (with the regenerated constructors) builds `[enum, string]` — the declaration is consumed
+by the first occurrence —, `newS` builds `[enum, enum]`. (Outside the property's quantifier: a column order naming a
+column twice; cf. `C08Construct.dup_order_witness`.) -/
+theorem nodup_necessary :
+    (∀ c ∈ dupCols, TypedFor [(nE, [])] c) ∧ ¬ (specOrder dupCols [nE, nE]).Nodup ∧
+    typesOf (C08Construct.genNew genCtors (fun _ => false) dupCols [nE, nE] [(nE, [])]) = [.enum, .string] ∧
+    typesOf (some (newS dupCols [nE, nE] [(nE, [])])) = [.enum, .enum] ∧
+    C08Construct.genNew genCtors (fun _ => false) dupCols [nE, nE] [(nE, [])] ≠ some (newS dupCols [nE, nE] [(nE, [])]) := by
+  have h1 : typesOf (C08Construct.genNew genCtors (fun _ => false) dupCols [nE, nE] [(nE, [])]) = [.enum, .string] := by
+    rw [new_congr genCtors specCtors _ dupCols (fun c hc => typed_agree c (dupCols_typed c hc))]
+    unfold C08Construct.genNew
+    rw [gen_new_outcome, gen_construct_canon.1, gen_construct_canon.2.1]
+    have : newOutcome (newReq dupCols [nE, nE]) = .ok := by decide
+    rw [this]
+    decide
+  have h2 : typesOf (some (newS dupCols [nE, nE] [(nE, [])])) = [.enum, .enum] := by decide
+  refine ⟨fun c hc => (dupCols_typed c hc).for _, by decide, h1, h2, fun h => ?_⟩
+  rw [h] at h1
+  rw [h1] at h2
+  cases h2
+
+/-! ### 2^32 rows or more are outside the statement -/
+
+/-- **Counts of 2^32 or more are outside the statement**: a column of 4294967296 rows (`ConstBool{Val: false, Count: 1 << 32}`,
+4 GiB) does not meet `GoData` (`WF.small`), and the hypothesis is not idle: the tail of `New` returns
+`index.NewAscending(uint32(currentLen))` (`canonTail`: `.retFrame (.u32 .current)`), which for `currentLen = 2^32` is an
+index of 0 rows, while `newS` says `n = 2^32`. -/
+theorem rows_2_32_outside :
+    ¬ GoData { name := [98], kind := .const .bool, count := 4294967296, cells := [.bool false] } ∧
+    canonTail.getLast? = some (.retFrame (.u32 .current)) ∧
+    (LInt.u32 .current).eval 0 { enums := [], current := 4294967296 } = 0 := by
+  refine ⟨fun h => ?_, by decide, by decide⟩
+  have := h.wf.small
+  simp at this
+
 end Example
 
 end QF.Props.C08EndToEnd
@@ -626,4 +1002,8 @@ end QF.Props.C08EndToEnd
 #print axioms QF.Props.C08EndToEnd.new_congr
 #print axioms QF.Props.C08EndToEnd.typed_agree
 #print axioms QF.Props.C08EndToEnd.newS_ok
+#print axioms QF.Props.C08EndToEnd.new_congr_for
+#print axioms QF.Props.C08EndToEnd.enum_beyond_limits
+#print axioms QF.Props.C08EndToEnd.nodup_necessary
+#print axioms QF.Props.C08EndToEnd.rows_2_32_outside
 #print axioms QF.Props.C08EndToEnd.gen_new_end_to_end_partial
